@@ -919,7 +919,7 @@ func IsLoopback(addr string) bool {
 	}
 	return host == "localhost" ||
 		strings.Trim(host, "[]") == "::1" ||
-		strings.HasPrefix(host, "127.") ||
+		(strings.HasPrefix(host, "127.") && net.ParseIP(host) != nil) ||
 		strings.HasSuffix(host, ".localhost")
 }
 
